@@ -38,6 +38,9 @@ def main():
     names = sorted(d for d in os.listdir("/verif/seeded") if os.path.isfile(f"/verif/seeded/{d}/patch.diff"))
     setup()
     rows = []
+    if only and os.path.exists("/verif/seeded/regression.json"):
+        # partial run: keep the rows of the seeds that are not re-run
+        rows = [r for r in json.load(open("/verif/seeded/regression.json")).get("rows", []) if r.get("seed") not in only]
     try:
         for name in names:
             if only and name not in only:
